@@ -184,6 +184,13 @@ def rule_threshold(ctx):
         m = re.match(r'^or_insert\(entry\((.*?), (.*)\), (.*)\)$', canon(n.place_expr(p2)))
         if m:
             writes.append((m.group(1), m.group(2).rsplit('), ', 1)[0] if False else m.group(2), canon(n.rvalue_expr(rv)), bb, (n, bb)))
+    # the thresholds are folded over the map get_block_index returns — one winning record per height, i.e. the blocks
+    # that will be delivered — not over the raw LevelDB scan (a stale record's height is never delivered, so a file
+    # whose threshold it sets is never closed)
+    ctx.check('threshold', 'fold-over-delivered-records', bool(writes) and all(w[1].startswith(it) or it in w[1] for w in writes), n,
+              'per-file threshold table written from %d site(s) iterating the height-deduplicated index' % len(writes),
+              bad_detail='ChainIndex::new does not fold the per-file thresholds over the records of the height-deduplicated index (%s): '
+                         'a record that lost its height to another one can set a threshold that is never reached' % [w[1][:60] for w in writes])
     tbl = set()
     kinds = []
     for t0, k0, v0, wbb, site in writes:
